@@ -30,6 +30,9 @@ func PrivKeyToStdKey(priv PrivKey) (stdcrypto.PrivateKey, error) {
 	}
 	switch p := priv.(type) {
 	case *Ed25519PrivateKey:
+		if p == nil {
+			return nil, ErrNilPrivateKey
+		}
 		return &p.k, nil
 	default:
 		return nil, ErrBadKeyType
@@ -43,6 +46,9 @@ func PubKeyToStdKey(pub PubKey) (stdcrypto.PublicKey, error) {
 	}
 	switch p := pub.(type) {
 	case *Ed25519PublicKey:
+		if p == nil {
+			return nil, ErrNilPublicKey
+		}
 		return p.k, nil
 	default:
 		return nil, ErrBadKeyType
